@@ -6,8 +6,48 @@ from vlib.rat import isinf
 from checks import solvefam as sf, iofam
 
 
+def gen_reload_case(rnd, k):
+    """"loading it reproduces the same basic solution", on a problem that has meanwhile been solved at another basis: with a zero
+    objective every primal feasible basis is optimal, so a solve started from a loaded feasible basis must stay on it.
+    A -> solve -> write file; B -> solve; read_and_load(file) (or read_basis + load_basis) -> solve: the solution must be A's."""
+    from checks import c12
+    from vlib import basis as vbasis
+    for attempt in range(30):
+        m = c12.small_lp(rnd)
+        for c in m.cols:
+            c.obj = 0 * c.obj
+        if not m.nrows or not m.ncols:
+            continue
+        feas = []
+        for cs, rs in vbasis.enumerate_bases(m, rnd, limit=None)[:400]:
+            e = vbasis.evaluate(m, cs, rs)
+            if e.get("valid") and not e.get("singular") and e.get("pfeas"):
+                feas.append((cs, rs, e["x"]))
+        pairs = [(a, b_) for a in feas for b_ in feas if a[2] != b_[2]]
+        if pairs:
+            break
+    else:
+        return None
+    A, Bb = rnd.choice(pairs)
+    solve = rnd.choice(["opt_dual p0", "opt_dual p0", "opt_primal p0"])
+    f1 = "@W@/A.bas" + rnd.choice(["", "", ".gz"])
+    L = model.script_build(m, "p0") + ["set_param p0 5 3000"]
+    L += ["load_basis_array p0 %s %s" % (A[0], A[1]), solve, "dumpsol p0", "write_basis p0 - " + f1,
+          "load_basis_array p0 %s %s" % (Bb[0], Bb[1]), solve, "dumpsol p0"]
+    if rnd.random() < 0.6:
+        L += ["read_and_load_basis p0 " + f1]
+    else:
+        L += ["read_basis p0 " + f1 + " b1", "load_basis p0 b1"]
+    L += [solve, "dumpsol p0", "get_basis_array p0"]
+    return run.Case("C14-%d" % k, L, dict(mode="reload", A=[A[0], A[1], [str(v) for v in A[2]]], B=[Bb[0], Bb[1], [str(v) for v in Bb[2]]])), m
+
+
 def gen_case(tier, seed, k):
     rnd = run.rng("C14", tier, seed, "bas", k)
+    if k % 4 == 3:
+        r = gen_reload_case(rnd, k)
+        if r is not None:
+            return r
     m = iofam.io_model(rnd, "noint")
     for c in m.cols:
         c.isint = 0
@@ -65,6 +105,26 @@ def judge(case, res, m):
     mode = case.meta["mode"]
     wr = res.evs("write_basis")
     rd = res.evs("read_basis")
+    if mode == "reload":
+        sols = res.evs("dumpsol")
+        xa, xb = case.meta["A"][2], case.meta["B"][2]
+        if len(sols) != 3 or wr[0].get("rc") != 0:
+            return [("C14|reload|setup-failed", "write rc=%r, %d solutions" % (wr[0].get("rc") if wr else None, len(sols)))], C, True
+        got = [sv.get("x") if sv.get("x_rc") == 0 and sv.get("status") == 1 else None for sv in sols]
+        if got[0] != xa or got[1] != xb:
+            # the premise (a solve started from an optimal basis stays on it) does not hold on this instance: nothing to conclude
+            C["reload:premise-not-met"] = 1
+            return V, C, False
+        C["reload:compared"] = 1
+        if got[2] != xa:
+            V.append(("C14|reload|solution-of-another-basis", "basis A c=%s r=%s (x=%s) written, problem moved to B (x=%s), file loaded back and solved: x=%s" % (
+                case.meta["A"][0], case.meta["A"][1], xa, xb, got[2])))
+        # the basis reported after the solve may legitimately be an equivalent one (e.g. a range-0 row reported at lower instead
+        # of at upper): the property speaks of the basic solution, so only that is judged; the rest is counted
+        ga = res.ev("get_basis_array")
+        if ga is not None and ga.get("rc") == 0 and same_basis(m, case.meta["A"][0], case.meta["A"][1], ga["cstat"], ga["rstat"]):
+            C["reload:equivalent-basis-reported"] = 1
+        return V, C, True
     if mode in ("solver", "random"):
         b0 = res.ev("dump_basis")
         if b0 is None or b0.get("rc") != 0 or not b0["basis"] or b0["basis"]["nstruct"] != m.ncols or b0["basis"]["nrows"] != m.nrows:
